@@ -1,4 +1,5 @@
 """C19 — numeric cast of compound values is all-or-nothing and component-faithful."""
+import re
 import algebra as A
 from core import (Harness, VEC, PNT, MAT, Run, Conv, run_specs, report_dropped, ret_leaves, flat)
 import facts
@@ -17,17 +18,29 @@ def build():
     for n, M in MAT.items():
         h.root('cast__m%d' % n, g + '(a: &%s<S>) -> Option<%s<T>>' % (M, M), 'a.cast()', ('cast', ('mat', n)))
     h.root('cast__q', '<S: NumCast + Copy, T: BaseFloat>(a: &Quaternion<S>) -> Option<Quaternion<T>>', 'a.cast()', ('cast', ('quat',)))
+    # the same calls the way user code at one concrete source type writes them, on a reference and on an owned value: method lookup
+    # may reach other code there (an inherent `cast` on `Vector4<f32>`, a by-value `cast(self)` of some other trait in scope)
+    h.soft = getattr(h, 'soft', set())
+    for s0 in ('f32', 'f64', 'i32'):
+        fams = [('v%d' % n, T, ('vec', n)) for n, (T, _) in VEC.items()] + [('p%d' % n, T, ('vec', n)) for n, (T, _) in PNT.items()] + [('m%d' % n, M, ('mat', n)) for n, M in MAT.items()]
+        for tag, T, kind in fams:
+            for sfx, body in (('_m', 'a.cast()'), ('_mv', '{ let v_ = *a; v_.cast() }')):
+                nm = h.root('cast__%s__%s%s' % (tag, s0, sfx), '<T: NumCast>(a: &%s<%s>) -> Option<%s<T>>' % (T, s0, T), body, ('cast', kind))
+                h.soft.add(nm)
+        for sfx, body in (('_m', 'a.cast()'), ('_mv', '{ let v_ = *a; v_.cast() }')):
+            nm = h.root('cast__q__%s%s' % (s0, sfx), '<T: BaseFloat>(a: &Quaternion<%s>) -> Option<Quaternion<T>>' % s0, body, ('cast', ('quat',)))
+            h.soft.add(nm)
     return h
 
 
-TARGET = 'T/#1'     # the root's second type parameter: every root is declared `<S: .., T: ..>(a: &X<S>) -> Option<X<T>>`
+# the root's target type parameter: every root is declared `<S: .., T: ..>(a: &X<S>) -> Option<X<T>>` or `<T: ..>(a: &X<f32>) -> ..`
 
 
 def _is_cast_to_target(S, u):
     """numcast(atom, "T/#1"): the scalar cast of a source component TO THE TARGET TYPE of the compound cast (a cast of the
     same component to any other type - `<f64 as NumCast>::from(x)` used to sniff for NaN - answers a different question)"""
     return (u[0] == 'a' and u[1] == 'numcast' and len(u[2]) == 2 and S.terms[u[2][0]][0] == 'v'
-            and S.terms[u[2][1]] == ['s', TARGET])
+            and S.terms[u[2][1]][0] == 's' and re.match(r'^T/#\d+$', S.terms[u[2][1]][1]) is not None)
 
 
 def numcast_of(S, tid):
